@@ -257,3 +257,160 @@ func TestC17_Concurrent(t *testing.T) {
 		Gen:         genLossyConc, Run: runLossyConc,
 	})
 }
+
+// ---- stripe churn: many short-lived buffers, so that stripe creation and table expansion (which happen only a few
+// times in the life of one buffer) are exercised thousands of times per run ---------------------------------
+
+type lossyChurnCase struct {
+	MaxLen    int   `json:"max_len"`
+	Instances int   `json:"instances"`
+	Recorders int   `json:"recorders"`
+	Per       int   `json:"per_recorder"`
+	Noise     int   `json:"noise"` // 0 none, 1 yields at the verif hook points, 2 yields and short sleeps
+	Seed      int64 `json:"seed"`
+	Drainer   bool  `json:"concurrent_drainer"`
+}
+
+func genLossyChurn(t *rapid.T) lossyChurnCase {
+	return lossyChurnCase{
+		MaxLen:    pick(t, "maxlen", 4, 16, 64),
+		Instances: rapid.IntRange(20, 300).Draw(t, "instances"),
+		Recorders: rapid.IntRange(3, 16).Draw(t, "recorders"),
+		Per:       rapid.IntRange(2, 60).Draw(t, "per"),
+		Noise:     pick(t, "noise", 0, 1, 1, 2),
+		Seed:      rapid.Int64().Draw(t, "seed"),
+		Drainer:   rapid.Bool().Draw(t, "drainer"),
+	}
+}
+
+func runLossyChurn(c lossyChurnCase) outcome {
+	var o outcome
+	if c.Noise > 0 {
+		sl := 0
+		if c.Noise == 2 {
+			sl = 3
+		}
+		defer vh.InstallNoise(uint64(c.Seed), 300, sl)()
+	}
+	nm := node.NewManager[int, int](node.Config{WithSize: true})
+	total := c.Recorders * c.Per
+	expanded, attached := 0, 0
+	for inst := 0; inst < c.Instances && o.Err == nil; inst++ {
+		s := lossy.NewStriped(c.MaxLen, nm)
+		status := make([]atomic.Int32, total)
+		delivered := make([]int32, total)
+		var errMu sync.Mutex
+		var firstErr error
+		setErr := func(e error) {
+			errMu.Lock()
+			if firstErr == nil {
+				firstErr = e
+			}
+			errMu.Unlock()
+		}
+		var drainMu sync.Mutex // the buffer has a single consumer
+		drain := func() {
+			drainMu.Lock()
+			defer drainMu.Unlock()
+			s.DrainTo(func(n node.Node[int, int]) {
+				k := n.Key()
+				if k < 0 || k >= total {
+					setErr(fmt.Errorf("drain delivered a node that was never recorded (key %d)", k))
+					return
+				}
+				delivered[k]++
+				if delivered[k] > 1 {
+					setErr(fmt.Errorf("drain delivered the entry %d twice", k))
+				}
+			})
+		}
+		var stop atomic.Bool
+		consDone := make(chan struct{})
+		if c.Drainer {
+			go func() {
+				defer close(consDone)
+				for !stop.Load() {
+					drain()
+					runtime.Gosched()
+				}
+			}()
+		} else {
+			close(consDone)
+		}
+		start := make(chan struct{})
+		var wg sync.WaitGroup
+		var fails atomic.Int64
+		for r := 0; r < c.Recorders; r++ {
+			wg.Add(1)
+			go func(r int) {
+				defer wg.Done()
+				<-start
+				for j := 0; j < c.Per; j++ {
+					id := r*c.Per + j
+					n := nm.Create(id, id, 0, 0, 1)
+					if s.Add(n) == lossy.Success {
+						status[id].Store(1)
+					} else {
+						fails.Add(1)
+						status[id].Store(2)
+					}
+				}
+			}(r)
+		}
+		close(start)
+		wg.Wait()
+		stop.Store(true)
+		<-consDone
+		drain()
+		drain()
+		if firstErr == nil {
+			if l := s.Len(); l != 0 {
+				firstErr = fmt.Errorf("buffer %d: after the quiescent drain Len()=%d", inst, l)
+			}
+		}
+		if firstErr == nil {
+			for id := 0; id < total; id++ {
+				st := status[id].Load()
+				if st == 1 && delivered[id] != 1 {
+					firstErr = fmt.Errorf("buffer %d: entry %d was recorded successfully but delivered %d times (%d stripes attached)", inst, id, delivered[id], s.VerifStripes())
+					break
+				}
+				if st != 1 && delivered[id] != 0 {
+					firstErr = fmt.Errorf("buffer %d: entry %d was refused but delivered %d times", inst, id, delivered[id])
+					break
+				}
+			}
+		}
+		if n := s.VerifStripes(); n > 1 {
+			attached++
+		}
+		if s.VerifTableLen() > 1 {
+			expanded++
+		}
+		o.Err = firstErr
+	}
+	o.NonTrivial = expanded > 0 && attached > 0
+	if expanded > 0 {
+		o.Classes = append(o.Classes, "table-expanded")
+	}
+	if attached > 0 {
+		o.Classes = append(o.Classes, "stripe-attached-after-expansion")
+	}
+	if c.Drainer {
+		o.Classes = append(o.Classes, "concurrent-drainer")
+	}
+	o.Classes = append(o.Classes, fmt.Sprintf("noise:%d", c.Noise))
+	o.Sig = vh.Sig(fmt.Sprint(c), fmt.Sprint(expanded, attached))
+	return o
+}
+
+func TestC17_StripeChurn(t *testing.T) {
+	propMain(t, propSpec[lossyChurnCase]{
+		Prop: "C17", Test: "StripeChurn",
+		Rule: "20-300 fresh lossy.Striped buffers per case (maxLen 4/16/64), each hit by 3-16 recorders released together that add 2-60 unique nodes each, with or without a concurrently draining consumer, optional yields/sleeps at the verif hook points in the stripe-creation and expansion paths; " +
+			"oracle per buffer (every schedule): nothing delivered that was not recorded, nothing delivered twice, and after the recorders finished a quiescent drain has delivered exactly the adds that reported Success and Len() is 0; " +
+			"non-trivial = at least one buffer of the case expanded its table and attached a second stripe",
+		Assumptions: []string{"schedules are sampled by the Go runtime on up to 16 cores, not enumerated"},
+		Gen:         genLossyChurn, Run: runLossyChurn,
+	})
+}
